@@ -60,7 +60,7 @@ def r1_arguments_in_caller_scope(ctx: Ctx) -> None:
     for c in sn:
         flag = kwarg(c, "in_parent_scope", 3)
         ctx.check(flag is not None and unparse(flag) == "True", "generate_macro_application:deferred-in-caller-scope",
-                  "an argument deferred to label resolution is evaluated under the replayed macro scope unless marked in_parent_scope=True")
+                  "an argument deferred to label resolution is evaluated under the replayed macro scope unless marked in_parent_scope=True", fact=True)
     ctx.floor("deferred_sites", 1)
     # SymbolNode honours the mark
     pa = ctx.repo.func(NODES, "SymbolNode.pc_after")
